@@ -2,4 +2,4 @@
 Require Import ExtrOcamlBasic ExtrOcamlNativeString.
 Require Import MPSV.ParseTotal.Tokenizer MPSV.ParseTotal.OptionLine MPSV.ParseTotal.Gmp621 MPSV.ParseTotal.WholeFile.
 Extraction "../ocaml/pwhole.ml"
-  parse_string parse_stream budget_of gmpf621 gmpq621 atoi sscanf_d sscanf_ld mul_log2_10.
+  parse_string parse_stream budget_of gmpf621 gmpq621 atoi sscanf_d sscanf_ld mul_log2_10 parse_long.
